@@ -58,7 +58,7 @@ def matrix(rng, n, m, kind=None):
     elif kind == "faintrows":
         # independent sensors on wildly different scales (exact powers of two): some rows 2^-30 ... 2^-70 of the others
         B = rng.integers(-40, 41, size=(n, m)) / 8.0
-        nstrong = 1 if rng.random() < 0.5 else int(rng.integers(1, max(2, min(n, m))))      # fewer strong sensors than ranked positions: faint ones get ranked too
+        nstrong = 1 if rng.random() < 0.7 else int(rng.integers(1, max(2, min(n, m))))      # fewer strong sensors than ranked positions: faint ones get ranked too
         strong = set(int(i) for i in rng.choice(n, size=min(nstrong, n), replace=False))
         lo = 30 if rng.random() < 0.25 else 55
         for i in range(n):
